@@ -159,7 +159,7 @@ func popOpts(g *G) *neat.Options {
 	return o
 }
 
-var landscapes = []string{"distinct", "heavyTail", "dominant", "constant", "zero", "quantised"}
+var landscapes = []string{"distinct", "heavyTail", "dominant", "constant", "zero", "quantised", "nearTies"}
 
 func assignFitness(g *G, pop *genetics.Population, landscape string) {
 	for i, o := range pop.Organisms {
@@ -174,6 +174,9 @@ func assignFitness(g *G, pop *genetics.Population, landscape string) {
 			} else {
 				o.Fitness = g.f64() * 0.01
 			}
+		case "nearTies":
+			// pairwise distinct values that differ by a few ulps up to 1e-12 (a tolerance-based comparator is not the order)
+			o.Fitness = 2.5 + float64(i)*4.440892098500626e-16*float64(1+g.intn(2000))
 		case "constant":
 			o.Fitness = 3.5
 		case "zero":
